@@ -8,9 +8,9 @@
 package main
 
 import (
-	"os"
 	"fmt"
 	"math/rand"
+	"os"
 	"sort"
 	"strings"
 	"sync"
@@ -115,7 +115,10 @@ func sequence(c *drv.Ctx, ref *workerRef, seed int64, idx int, conf string, nops
 	// of each version is then rebuilt from the per-version mutation logs, in whatever order the start-up replays them
 	var script []string
 	if !negative && idx%4 == 3 {
-		script = []string{"merge", "merge", "dag", "cleave", "merge", "cleave", "dag", "merge", "cleave", "renumber", "merge"}
+		script = []string{"merge", "merge", "dag", "cleave", "merge", "cleave", "dag", "merge", "cleave", "renumber", "merge",
+			// a body that is named after one of its supervoxels loses exactly that supervoxel, then gets another name:
+			// the supervoxel id goes on living in the cleaved-off body
+			"ns-merge", "ns-cleave", "ns-renumber", "dag", "ns-merge", "ns-cleave", "dag", "ns-renumber"}
 		nops = len(script)
 		c.Count("remap_chain_sequences", 1)
 	}
@@ -146,6 +149,41 @@ func sequence(c *drv.Ctx, ref *workerRef, seed int64, idx int, conf string, nops
 			v := open[len(open)-1]
 			var done bool
 			var err error
+			if strings.HasPrefix(forced, "ns-") {
+				// the namesake chain: B = a body that contains the supervoxel of its own name
+				sc := in.states[v].Scan()
+				var named []uint64
+				for _, b := range sc.Bodies() {
+					if sc.BodySVs[b][b] > 0 {
+						named = append(named, b)
+					}
+				}
+				sort.Slice(named, func(i, j int) bool { return named[i] < named[j] })
+				in.forced = nil
+				switch forced {
+				case "ns-merge":
+					in.namesake = 0
+					for _, b := range named {
+						for _, a := range sc.Bodies() {
+							if a != b && in.namesake == 0 {
+								in.namesake, in.forced, forced = b, []uint64{b, a}, "merge"
+							}
+						}
+					}
+				case "ns-cleave":
+					if b := in.namesake; b != 0 && sc.BodySVs[b][b] > 0 && len(sc.BodySVs[b]) >= 2 {
+						in.forced, forced = []uint64{b, b}, "cleave"
+					}
+				case "ns-renumber":
+					if b := in.namesake; b != 0 && len(sc.BodySVs[b]) >= 1 {
+						in.forced, forced = []uint64{b}, "renumber"
+					}
+				}
+				if in.forced == nil {
+					continue
+				}
+				c.Count("namesake_chain_steps", 1)
+			}
 			switch forced {
 			case "merge":
 				done, err = in.opMerge(v)
